@@ -40,12 +40,13 @@ PROPS = {
     "C03": {"props_file": "Props/C03.v", "families": ["hist", "transfer", "policy", "sched", "marshaljunk"], "design_ref": "DESIGN.md §8 C03",
             "level_text": "Theorems c03_*: every state reachable from a constructor with capacity k by any history holds <= k elements and answers Len/Cap/Avail/IsFull with n, k, k-n, n==k; without capacity -1/-1/false; Push keeps the earliest offered values; Insert on a full stack is a no-op. Proved from the refinement theorem plus a capacity invariant of the specification.",
             "technique": "Coq invariant proof over all histories (corollary of the refinement theorem) + differential correspondence check"},
-    "C08": {"props_file": "Props/C08.v", "families": ["indexsweep", "awkward", "hist", "sched"], "design_ref": "DESIGN.md §8 C08",
+    "C08": {"props_file": "Props/C08.v", "families": ["indexsweep", "awkward", "hist", "sched", "policy"], "design_ref": "DESIGN.md §8 C08",
             "level_text": "Index part proved: every history with arbitrary Go-int indices (MinInt/MaxInt included) runs without Panic in the regenerated raw-slot model and never reads or overwrites the configuration slot; non-addressing indices make Index/Remove/Replace/Swap fail with the state untouched; -k / oversize indices address what the options promise. Value part: panics on awkward Go values live in reflect and cannot be proved over a model of Go; it is decided by the exhaustive awkward-value family (24 methods x 52 values x receiver states + observer battery) and, for the two alias converters, by the theorems of C12.",
             "technique": "Coq proof over the regenerated index/guard fragments (all ints) + exhaustive boundary sweep and awkward-value differential families",
             "assumptions": ["the value part (arbitrary Go values through reflect) is covered by exhaustive enumeration of a 52-value catalogue, not by a theorem"]},
     "C09": {"props_file": "Props/C09.v", "families": ["roreflect", "transfer", "defragro"], "design_ref": "DESIGN.md §8 C09",
             "level_text": "Static leg: the translator regenerates a guard IR of EVERY function of the package; Guard.v gives it a trace semantics and a summary-based analysis proved sound in Coq; theorem c09_ro_no_write_every_method applies it to every exported method in the source now (new methods included) on an initialised read-only receiver: no store into the receiver on any path, exceptions SetReadOnly/ReadOnly/SetErr/Init only. Model leg: every mutator of the list model is a no-op under read-only and clearing the flag restores the exact state. Dynamic leg: every method found by reflection x argument variants x read-only receivers, deep hidden-state snapshots (VerifDump) identical; the reflected method set must equal the translator's table.",
+            "race": {"mode": "options", "rounds": [30, 600], "workers": 9, "invariants_only": True},
             "technique": "Coq-proved static analysis over a guard IR regenerated from the source + model frame theorems + reflection-driven differential check",
             "assumptions": ["calls leaving the package and user closures (EExt) are assumed not to write into the receiver", "the translator's classification of stores (which assignments go through the receiver) is trusted; cross-checked by the deep-snapshot family"]},
     "C11": {"props_file": "Props/C11.v", "families": ["queryreflect"], "design_ref": "DESIGN.md §8 C11",
